@@ -38,6 +38,9 @@ mod parser;
 mod rewritable_units;
 mod transform_stream;
 
+#[cfg(feature = "_verif_hooks")]
+pub mod verif_hooks;
+
 use cfg_if::cfg_if;
 
 pub use self::rewriter::{
